@@ -82,7 +82,7 @@ _PYCMP = {
 
 
 def is_predicate(e) -> bool:
-    return e[0] in _CMP or e[0] in ("and", "or", "not", "plit", "pref", "in_range", "in_seq", "in_seq_list", "only")
+    return e[0] in _CMP or e[0] in ("and", "or", "andn", "orn", "not", "plit", "pref", "in_range", "in_seq", "in_seq_list", "only")
 
 
 def _engine_types(kind):
@@ -154,6 +154,12 @@ def _to_lib(e):
     if k == "or":
         ops = [to_lib(p) for p in e[1:]]
         return Predicate.logical_or(*ops)
+    if k == "andn" or k == "orn":
+        # the node classes themselves, any arity (the factories fold 0 and 1 operands away; the classes are
+        # public and the package's own tests build LogicalAnd(()) / LogicalOr((y,)) directly)
+        from lsst.daf.relation import LogicalAnd, LogicalOr
+
+        return (LogicalAnd if k == "andn" else LogicalOr)(tuple(to_lib(p) for p in e[1:]))
     if k == "not":
         return to_lib(e[1]).logical_not()
     if k == "plit":
@@ -190,9 +196,9 @@ def ref_eval(e, row):
         return ref_eval(e[2], row)
     if k == "efn":
         raise AssertionError("efn node not bound to an engine (bind_engine)")
-    if k == "and":
+    if k == "and" or k == "andn":
         return all(bool(ref_eval(p, row)) for p in e[1:])
-    if k == "or":
+    if k == "or" or k == "orn":
         return any(bool(ref_eval(p, row)) for p in e[1:])
     if k == "not":
         return not ref_eval(e[1], row)
@@ -259,12 +265,12 @@ def trivial_value(p):
     if k == "not":
         v = trivial_value(p[1])
         return None if v is None else (not v)
-    if k == "and":
+    if k == "and" or k == "andn":
         vals = [trivial_value(q) for q in p[1:]]
         if any(v is False for v in vals):
             return False
         return True if all(v is True for v in vals) else None
-    if k == "or":
+    if k == "or" or k == "orn":
         vals = [trivial_value(q) for q in p[1:]]
         if any(v is True for v in vals):
             return True
@@ -286,6 +292,8 @@ def fmt(e) -> str:
         return f"({fmt(e[1])}{sym[k]}{fmt(e[2])})"
     if k in ("and", "or"):
         return "(" + f" {k} ".join(fmt(p) for p in e[1:]) + ")" if len(e) > 1 else f"{k}()"
+    if k in ("andn", "orn"):
+        return ("LogicalAnd" if k == "andn" else "LogicalOr") + "(" + ", ".join(fmt(p) for p in e[1:]) + ")"
     if k == "not":
         return f"not {fmt(e[1])}"
     if k == "in_range":
